@@ -314,6 +314,8 @@ func (h *SexpHash) TypeCheckField(key Sexp, val Sexp) error {
 				if len(a.Val) == 0 {
 					return nil // okay
 				}
+				return fmt.Errorf("field %v.%v is %v, cannot assign untyped array '%v'",
+					p.UserStructDefn.Name, k, declaredTyp.SexpString(nil), val.SexpString(nil))
 			case *SexpSentinel:
 				return nil // okay
 			default:
